@@ -16,7 +16,6 @@ import pyc_dump as D
 import syntax_common as S
 
 ID = "C07"
-NOT_CLAIMED = "in progress"
 LEVEL = "proof"
 TRANSLATORS = ["syntax", "pycschema"]
 MODEL_TARGETS = ["theories/Syntax.vo"]
